@@ -19,8 +19,11 @@ package appendable
 import (
 	"compress/flate"
 	"crypto/sha256"
+	"errors"
 	"io"
 )
+
+var ErrIllegalArguments = errors.New("appendable: illegal arguments")
 
 const DefaultCompressionFormat = NoCompression
 const DefaultCompressionLevel = BestSpeed
@@ -58,6 +61,10 @@ type Appendable interface {
 }
 
 func Checksum(rAt io.ReaderAt, off, n int64) (checksum [sha256.Size]byte, err error) {
+	if off < 0 || n < 0 {
+		return checksum, ErrIllegalArguments
+	}
+
 	h := sha256.New()
 	r := io.NewSectionReader(rAt, off, n)
 
